@@ -7,15 +7,50 @@ NOTE_TRUST = ("Trusted: Kani 0.68 MIR->goto translation of the dev-profile MIR o
               "reference predicates in /verif/harness written from the property text; counterexamples are replayed natively "
               "(dev and release) before being reported. ")
 
+def _c(text, ref, note, technique="Kani/CBMC bounded model checking of the compiled code against an independent reference predicate (SAT)"):
+    return dict(text=text, design_ref=ref, note=NOTE_TRUST + note, technique=technique)
+
 CLAIMED = {
- "C06": dict(
-    text="Bounded model checking of the real TrgV3Packet/TrgPacket::try_from: for slice lengths {0,1,4,76,79,80,81,84,96} and "
-         "EVERY content (length 80 = all 2^640 packets) the solver shows accept <=> reference predicate, all 18 accessors = "
-         "little-endian field at the documented offset, counter ordering, and byte-exact re-encoding. No content bound; the "
-         "only bound is the list of lengths.",
-    design_ref="DESIGN.md section 4 (C06)",
-    note=NOTE_TRUST + "Outside the bound: other slice lengths (the decoder's only length test is `len != 80`).",
-    technique="Kani/CBMC bounded model checking of the compiled decoder against an independent reference predicate (SAT, CaDiCaL)"),
+ "C01": _c("Totality of every raw-data decoder, bank-name and id parser: for each listed input size class and EVERY content, CBMC shows "
+           "that no panic, unwrap/expect failure, out-of-bounds index, arithmetic overflow (checked in every profile) or unwinding-"
+           "assertion failure (non-termination within the bound) is reachable. Found and fixed D1 (requested_samples - 2 underflow).",
+           "DESIGN.md 4 (C01), 9", "Bounds: lengths listed in the evidence; slices longer than the listed classes are outside.",
+           "Kani/CBMC bounded model checking (panic/overflow/bounds/unwinding checks over symbolic inputs, SAT)"),
+ "C02": _c("AdcV3Packet/AdcPacket::try_from on every content of lengths 0..=40 and 160..=171 (62..=67 samples): accept <=> the documented "
+           "decision ladder evaluated in signed 64-bit arithmetic; every accessor = big-endian field; hence byte-exact re-encoding.",
+           "DESIGN.md 4 (C02), 9", "Quick tier assigns samples 2..=61 to zero in the two long instances (thorough: all content). Waveforms > 67 samples outside."),
+ "C03": _c("Chunk::try_from on 28/32-byte chunks (thorough: up to 64): accept <=> structure + both CRC-32C words over the documented byte "
+           "ranges; field-wise round trip; every non-zero error pattern inside a word, every burst <= 32 bits at every offset and every "
+           "weight<=3 error over word pairs/triples of an accepted chunk is rejected (pattern symbolic, position per instance).",
+           "DESIGN.md 4 (C03), 9", "crc32c::crc32c is a bit-serial stand-in under cfg(kani), validated natively against the real crate. Longer chunks rest on cited CRC-32C properties."),
+ "C04": _c("TryFrom<Vec<Chunk>> on every arrival order of 2-, 3- and 4-chunk sets and of the faulty multisets (duplicate/missing id, "
+           "non-final chunk resized by >= 1 byte), with board, chip, end-of-message flags, counters and payload bytes symbolic: result = "
+           "order-independent reference (documented predicate on the set; real slice decoder on the payloads concatenated by id).",
+           "DESIGN.md 4 (C04), 9", "Chunk ids and payload lengths concrete per instance; chunks built with the hook Chunk::verif_from_parts. ~15 min per instance."),
+ "C05": _c("PwbV2Packet::try_from with the size-steering fields assigned (masks: empty, every single bit, pairs, bit 79; requested_samples "
+           "0..=3 or symbolic; length exact/+-2) and every other byte symbolic: accept <=> documented layout; channel lists = mask bits "
+           "through a literal readout table; waveform_at for an arbitrary channel; all scalar accessors.",
+           "DESIGN.md 4 (C05), 9", "More than 2 sent channels / 3 samples outside."),
+ "C06": _c("TrgV3Packet/TrgPacket::try_from for slice lengths {0,1,4,76,79,80,81,84,96} and EVERY content (length 80 = all 2^640 packets): "
+           "accept <=> reference predicate, 18 accessors = little-endian fields, counter ordering, byte-exact re-encoding.",
+           "DESIGN.md 4 (C06)", "Outside: other slice lengths (the decoder's only length test is len != 80)."),
+ "C07": _c("Chronobox FIFO: all 2^32 words through the real entry parser (classification and fields), scaler-block parser 0..=248 bytes, "
+           "chronobox_fifo on every stream of 0..=4 bytes (thorough: up to 16, splits, streams with a scaler block): entries = longest "
+           "prefix of accepted words in order, remainder exact.",
+           "DESIGN.md 4 (C07), 9", "winnow without the boxed error cause under cfg(kani); each whole-function instance costs 4-15 min."),
+ "C08": _c("Bank names (all ASCII strings <= 6 bytes, UTF-8 <= 4 bytes): accepted <=> documented pattern, decoded identity determines the "
+           "name; all id/MAC/device-id/index conversions over full domains against frozen tables; wire<->pad-column arithmetic, rotation "
+           "law and geometry for all wires.",
+           "DESIGN.md 4 (C08), 9", "NOT decided: the run-dependent HashMap bijections (wire map, pad map, run 10418 switch, simulation = run 5000); see not-decided note in the evidence."),
+ "C18": _c("Real DriftTables::at / DriftTable::at over the shipped tables (dumped bit-exactly from the crate at every run): per table "
+           "windows of consecutive real knots (first 12, last 12, middle 48; complete tables best effort), t in [-1e-6, 5e-6] s: success "
+           "<=> t within first/last knot, error kind, radius/correction bounds, knot reproduction to 1e-12; slice selection and z symmetry "
+           "over all 92 real z bounds.",
+           "DESIGN.md 4 (C18), 9", "Monotonicity and 8 ns continuity are two-lookup float queries: best effort, reported per run. Hook VerifDriftTables::from_static."),
+ "C20": _c("alpha-g-chronobox-timestamps: fn chronobox_time (soundness for every entry/marker combination; integer lemma tying the formula "
+           "to the hardware model over 8 wraps; displacement/dropped/duplicated/missing marker) and the row loop of main() on every FIFO "
+           "of <= 4 entries after the counter-0 marker (rows, order, channel/edge, which markers feed the time). Found and fixed D3.",
+           "DESIGN.md 4 (C20), 9", "Source text of the kernel and the row loop is cut verbatim from main.rs at every run; parsing, buffering across banks/files, failure exits and CSV output are outside."),
 }
 
 NA = {
